@@ -490,11 +490,17 @@ func (p *RegProcessor) processBdReq(c2sPayload *pb.C2SWrapper) (*pb.Registration
 		return nil, ErrRegProcessFailed
 	}
 
+	// Take one snapshot of the selector for the whole request. Holding the read lock across both
+	// selections (and re-acquiring it for the second one) deadlocks with a concurrent
+	// ReloadSubnets: a pending writer blocks new readers, including the second RLock of the very
+	// goroutine that still holds the first one.
+	p.selectorMutex.RLock()
+	ipSelector := p.ipSelector
+	p.selectorMutex.RUnlock()
+
 	phantomSubnetSupportsRandPort := true
 	if c2s.GetV4Support() {
-		p.selectorMutex.RLock()
-		defer p.selectorMutex.RUnlock()
-		phantom4, err := p.ipSelector.Select(
+		phantom4, err := ipSelector.Select(
 			cjkeys.ConjureSeed,
 			uint(c2s.GetDecoyListGeneration()), //generation type uint
 			clientLibVer,
@@ -511,9 +517,7 @@ func (p *RegProcessor) processBdReq(c2sPayload *pb.C2SWrapper) (*pb.Registration
 	}
 
 	if c2s.GetV6Support() {
-		p.selectorMutex.RLock()
-		defer p.selectorMutex.RUnlock()
-		phantom6, err := p.ipSelector.Select(
+		phantom6, err := ipSelector.Select(
 			cjkeys.ConjureSeed,
 			uint(c2s.GetDecoyListGeneration()),
 			clientLibVer,
